@@ -52,12 +52,17 @@ def conclude(agg):
 
 def permute_levels(sim, nrng):
     ops = np.asarray(sim.ops)
+    new = ops.copy()
     moved = 0
     for a, b in zip(sim.level_starts, sim.level_stops):
         if b - a > 1:
             p = nrng.permutation(b - a)
-            sim.ops[a:b] = ops[a:b][p]
+            new[a:b] = ops[a:b][p]
             moved += int((p != np.arange(b - a)).any())
+    try:
+        sim.ops[...] = new
+    except ValueError:          # a read-only table: install the permuted copy instead (the simulators pass self.ops to their kernels at call time)
+        sim.ops = new
     return moved
 
 
